@@ -11,6 +11,26 @@ CHECKS = {
         technique="Hypothesis round trip encoder->segmenter->decoder on the real Server.write_response/Client.parse_response; exhaustive enumeration of Code.matches",
         text="Generated reply sequences (all codes, 1-6 lines, plain/list framing, 3 encodings, generated segmentations) are encoded by the real server code and decoded by the real client code and compared line by line; a reply with a foreign continuation code must raise StatusCodeError and leave the stream in sync; Code.matches is compared with the digit-wise specification on every (code, mask) pair (exhaustive); Server.parse_command round trip. Exploration is the right level: the domain is unbounded text, the oracle (round trip) is exact.",
         note="Assumes lines without CR/LF compared modulo trailing whitespace; encodings utf-8/latin-1/cp1251. Trusted: asyncio.StreamReader. Mutants caught: encoder dropping a body line, decoder comparing only the first digit of continuation codes, matches() looking at the first digit only."),
+    "C03": dict(
+        category="exploration", design_ref="3/C03",
+        technique="Hypothesis-generated state-aware command histories (auth-heavy) on a simulated network vs an auth automaton + instrumented backend + network ledger",
+        text="Generated user tables and command histories (USER/PASS in every order interleaved with all verbs) run against the real server; every reply must equal the auth automaton's (gated verbs refused until a known user supplied the right password after its last USER; PWD reveals whose home the session is in), and while the automaton is not logged the instrumented backend's call counter must not move and no listener/data connection may appear in the simulated network's ledger.",
+        note="Trusted: reference model vlib/ftpmodel.py, simnet. Mutants caught: USER not dropping 'logged'; login_required removed from MLST; substring password comparison."),
+    "C04": dict(
+        category="exploration", design_ref="3/C04",
+        technique="Hypothesis: permission tables x request paths vs longest-prefix oracle (function level); generated tables + alias-heavy command histories on simnet vs reference model (wire level)",
+        text="Function level: real User.get_permissions against an independent longest-prefix oracle over generated tables (nested, overlapping, duplicated, unordered, redundant-slash spellings). Wire level: generated table + command history whose arguments are aliases ('..' detours, relative forms from generated cwds, doubled slashes); the model applies the table to the resolved path, so a missing check, a spurious denial, a wrong permission class, or a lookup on the unresolved path all show as a reply mismatch; tree compared after every command and PWD after every CWD/CDUP.",
+        note="Trusted: reference model, simnet. Disagreeing duplicate entries are not judged. Mutants caught: min->max in get_permissions; lookup on the unresolved path; readable checked where writable is meant (DELE)."),
+    "C05": dict(
+        category="exploration", design_ref="3/C05",
+        technique="Hypothesis-generated state-aware command histories on a simulated network, compared step by step with a sequential reference model (model-based testing)",
+        text="Abstract programs are concretised against the model state (so that deep states are reached: logins, listeners, existing files, REST->transfer, RNFR->RNTO) and executed one command at a time against the real server on memory/PathIO/AsyncPathIO backends, IPv4/IPv6, 3 block sizes, generated network tapes; reply count/order/codes, 257 text, data bytes, listing names, session liveness and the whole backend tree are compared with the model after every command; four probes at the end reveal hidden state (restart offset, pending rename, cwd).",
+        note="Trusted: reference model vlib/ftpmodel.py (written from the RFCs and the property texts; points the texts leave open are not judged and are counted), simnet. Found and fixed 5 defects (KNOWN_FINDINGS)."),
+    "C18": dict(
+        category="exploration", design_ref="3/C18",
+        technique="differential testing: Hypothesis command histories replayed on the three backends (reply class, bytes, tree after every command); generated backend-API op sequences on PathIO vs AsyncPathIO",
+        text="The same generated concrete history is replayed on MemoryPathIO, PathIO and AsyncPathIO servers on simnet and compared pairwise after every command; a failing command must leave the tree unchanged. API level: generated operation sequences (all open modes, seek whence, renames onto/into/through) on PathIO vs AsyncPathIO must give the same result-or-failure and tree; thorough also with real executor threads.",
+        note="Differential oracle: no model needed. MemoryPathIO API differences not reachable through the server's command set are outside the property. Found and fixed 4 MemoryPathIO defects (KNOWN_FINDINGS)."),
     "C12": dict(
         category="fault_enumeration", design_ref="3/C12",
         technique="enumeration of cut positions (peer vanishes / write-then-FIN / Server.close() at every network delivery event of every corpus script, iteration-indexed alignment sweeps) on a simulated network, plus Hypothesis-sampled schedule tapes; oracle = resource ledger",
